@@ -249,7 +249,8 @@ Frame(m, a, si, sm, sc, t) ==
    si |-> si,          \* saved integer (previous flag value / outer permission / old evaluate fn)
    sm |-> sm,          \* saved contextual map
    sc |-> sc,          \* saved timing chain (the parent context)
-   v0 |-> View(t),     \* history: the view when the scope was entered
+   v0 |-> [View(t) EXCEPT !.timeit = <<@[1], {}>>],   \* history: the view when the scope was entered
+                       \* (without the status tree, which is history itself)
    g0 |-> gprog]       \* history: the process-wide scopes open at that moment
 
 \* the small detour family is explored deeper (the status tree of timeit is history and grows fast)
